@@ -376,7 +376,7 @@ replay_binding(const char *cas)
 /* calendars of the pairs and their reach */
 static const int pair_cal[] = {C_YMD, C_YWD, C_YD, C_YMCW, C_BIZDA, C_LDN};
 #define NPCAL	((int)(sizeof(pair_cal) / sizeof(*pair_cal)))
-#define REACH_MAX	400
+#define REACH_MAX	1200	/* on the window days; 400 elsewhere */
 
 int
 main(int argc, char *argv[])
@@ -394,7 +394,7 @@ main(int argc, char *argv[])
 	c_alt = ex_ctr("differences ending on a weekend day that count the other half-open interval (accepted)");
 	c_skip_nobd = ex_ctr("skipped:bizda text whose index exceeds the month's Monday-Friday days (no such date)");
 	bd_fmt = determine_durfmt("%db");
-	reach[0] = ex.thorough ? REACH_MAX : 60;
+	reach[0] = ex.thorough ? 400 : 60;
 	for (int i = 1; i < NPCAL; i++) {
 		reach[i] = ex.thorough ? 40 : 10;
 	}
@@ -428,8 +428,8 @@ main(int argc, char *argv[])
 		"default output, must be the DD-th Monday-Friday state of the month (an index beyond the month's count is no date: skipped, counted); every "
 		"Monday-Friday state as ymd text printed with %%Y-%%m-%%db and with the conversion format 'bizda' must give its bizda name. "
 		"non-trivial (2) = a weekend day lies at an end of or inside the interval");
-	ex_meta("bound", "%s tier: (2) all 911,280 days A x B = A+k, |k| <= %d in ymd, |k| <= %d in ywd yd ymcw bizda(Monday-Friday days) ldn; all ordered pairs "
-		"inside each of the four 8-year windows (1601-08 1897-1904 1997-2004 4088-95) in ymd; (3) all 29,940 months x 23 indices, all Monday-Friday days x 2 formats; binding runs: %d",
+	ex_meta("bound", "%s tier: (2) all 911,280 days A x B = A+k, |k| <= %d in ymd, |k| <= %d in ywd yd ymcw bizda(Monday-Friday days) ldn; for A in the four 8-year windows "
+		"(1601-08 1897-1904 1997-2004 4088-95) |k| <= 1200 in ymd (B inside or outside the window) and all ordered pairs inside each window; (3) all 29,940 months x 23 indices, all Monday-Friday days x 2 formats; binding runs: %d",
 		ex.thorough ? "thorough" : "quick", reach[0], reach[1], ex.thorough ? NBIND : NBIND_QUICK);
 	ex_meta("ord", "ordered coordinate of a failure class (lo/hi in findings) = day ordinal rd of the first operand A (0 = 1601-01-01); bizda names: rd of the named day; binding classes: rd of the input line");
 	ex_meta("binding", "ddiff -f %%db REF with all days on stdin (REF on each weekday), dconv -f %%F over all bizda names, dconv -f bizda / -f %%Y-%%m-%%db over all days; "
@@ -446,8 +446,10 @@ main(int argc, char *argv[])
 		}
 		for (int ci = 0; ci < NPCAL && !ex_expired_now(); ci++) {
 			int c = pair_cal[ci];
-			int lo = y0 - reach[ci] < 0 ? 0 : y0 - reach[ci];
-			int hi = y1 + reach[ci] > RC_NDAYS ? RC_NDAYS : y1 + reach[ci];
+			/* ymd on the window years: distances up to REACH_MAX, also to days outside the window */
+			int rch = (ci == 0 && in_w8(y)) ? REACH_MAX : reach[ci];
+			int lo = y0 - rch < 0 ? 0 : y0 - rch;
+			int hi = y1 + rch > RC_NDAYS ? RC_NDAYS : y1 + rch;
 
 			for (int rd = lo; rd < hi; rd++) {
 				vok[rd - lo] = (int8_t)cal_value(c, rc_get(rd), &val[rd - lo]);
@@ -468,7 +470,7 @@ main(int argc, char *argv[])
 					continue;
 				}
 				/* simplest first: k = 0, +1, -1, ... */
-				for (int j = 0; j <= 2 * reach[ci]; j++) {
+				for (int j = 0; j <= 2 * rch; j++) {
 					int k = (j + 1) / 2 * ((j & 1) ? 1 : -1);
 					int brd = rd + k;
 					if (brd < lo || brd >= hi || vok[brd - lo] <= 0) {
@@ -513,7 +515,7 @@ main(int argc, char *argv[])
 				}
 				for (int a = rc_yearstart[w0[w] + yy]; a < rc_yearstart[w0[w] + yy + 1] && !ex_expired_now(); a++) {
 					for (int b = lo; b < hi; b++) {
-						if (abs(b - a) <= reach[0]) {
+						if (abs(b - a) <= REACH_MAX) {
 							continue;	/* done above */
 						}
 						do_pair(C_YMD, rc_get(a), rc_get(b), wv[a - lo], wv[b - lo], 0);
